@@ -407,6 +407,12 @@ func validateSecurityRequirement(ctx context.Context, input *RequestValidationIn
 	}
 	sort.Strings(names)
 
+	// An empty requirement ({}) allows anonymous access: there is nothing to
+	// authenticate, so no AuthenticationFunc is needed either.
+	if len(names) == 0 {
+		return nil
+	}
+
 	// Get authentication function
 	options := input.Options
 	if options == nil {
